@@ -54,8 +54,14 @@ def make_scenario(rng, sid, depth, tier, *, n=None, kind=None, heights=None, tru
     n = n or rng.choice([2, 2, 3, 3, 4, 5])
     kinds = ["line", "star"] + (["ring", "tritail"] if n >= 3 else [])
     kind = kind or rng.choice(kinds)
+    want_cp = force.pop("cp", None)
+    if want_cp is None:
+        want_cp = trunk is None and depth <= 101 and rng.random() < 0.22
     if trunk is None:
         trunk = rng.choice([3, 12, 18, 19, 25, 28, 29, 30, 31, 35, 39, 45])
+        if want_cp:
+            # room for a checkpoint on the trunk, see below
+            trunk = heights["allow"] + 1 + (depth + 7) + 12 + rng.randint(0, 8)
     extra = rng.choice([1, 1, 2, 3])
     branches = [dict(name="t", **{"from": ""}, at=0, len=trunk),
                 dict(name="a", **{"from": "t"}, at=trunk, len=depth + extra)]
@@ -110,9 +116,10 @@ def make_scenario(rng, sid, depth, tier, *, n=None, kind=None, heights=None, tru
     dmax = max(b["len"] for b in branches if b["name"] != "t") + 4
     lowfork = min([trunk] + [b["at"] for b in branches if b["from"] == "t" and b["name"] != "t"])
     cp = False
-    if lowfork - (dmax + 12) >= heights["allow"] + 1 and rng.random() < 0.6:
+    if want_cp and lowfork - (dmax + 12) >= heights["allow"] + 1:
         for nd in nodes:
-            if rng.random() < 0.5:
+            nd["back"] = min(nd.get("back", 0), 5)      # nobody lags below the checkpoints
+            if rng.random() < 0.5 or not cp:
                 nd["checkpoint"] = rng.randint(heights["allow"] + 1, lowfork - (dmax + 12))
                 cp = True
     total = sum(b["len"] for b in branches)
@@ -317,7 +324,7 @@ def validate_all(wd, prefix, verdict, prop):
 def load_scale():
     """other builders share the machine: stretch the deadlines and narrow the fan-out when it is busy"""
     try:
-        return min(3.0, max(1.0, os.getloadavg()[0] / (os.cpu_count() or 16)))
+        return min(6.0, max(1.0, os.getloadavg()[0] / (os.cpu_count() or 16)))
     except OSError:
         return 1.0
 
